@@ -298,3 +298,39 @@ def random_tm(rng, k=2, S="a", extra="", blank="_", p_missing=0.25):
                 continue
             delta[p, a] = (rng.choice(Q), rng.choice(G), rng.choice("LR"))
     return make_tm(Q, S, G, delta, W[0], "qA", "qR", blank)
+
+
+def rename_pda(P, m):
+    from gambatools.pda import PDA
+    delta = defaultdict(set)
+    for (p, a, u), tg in P.delta.items():
+        for (q, v) in tg:
+            delta[m[p], a, u].add((m[q], v))
+    return PDA({m[q] for q in P.Q}, set(P.Sigma), set(P.Gamma), delta, m[P.q0], {m[q] for q in P.F}, P.epsilon)
+
+
+def rename_tm(T, m):
+    from gambatools.tm import TM
+    delta = {(m[p], a): (m[q], b, d) for (p, a), (q, b, d) in T.delta.items()}
+    return TM({m[q] for q in T.Q}, set(T.Sigma), set(T.Gamma), delta, m[T.q0], m[T.q_accept], m[T.q_reject], T.blank)
+
+
+# names that are keywords of the OTHER automaton kinds' text formats (legal state names for this kind)
+KEYWORD_NAMES = {
+    "dfa": ["epsilon", "accept", "reject", "blank", "tape_symbols", "stack_symbols"],
+    "nfa": ["accept", "reject", "blank", "tape_symbols", "stack_symbols", "q"],
+    "pda": ["accept", "reject", "blank", "tape_symbols", "q", "r"],
+    "tm": ["epsilon", "stack_symbols", "q", "r", "s", "t"],
+}
+
+
+def keyword_named(kind, X, rng):
+    Q = sorted(X.Q)
+    names = list(KEYWORD_NAMES[kind])
+    rng.shuffle(names)
+    if len(Q) > len(names):
+        return None
+    m = {q: names[i] for i, q in enumerate(Q)}
+    if kind in ("dfa", "nfa"):
+        return rename_fa(X, m)
+    return rename_pda(X, m) if kind == "pda" else rename_tm(X, m)
